@@ -1,6 +1,7 @@
 """C02 generator: scope skeletons. Every variable holds a unique integer so a
 read through the wrong cell is identified, not merely detected."""
 import random
+import zlib
 from lyast import *
 
 
@@ -85,14 +86,19 @@ class ScopeGen:
         else:
             stmts, ret = self.closure_body(depth, vars_, funs)
             pre = []
+            # own random stream (seeded from the generator state without consuming it), so that adding this family
+            # left the rest of every generated program exactly as it was
+            r = random.Random('sole:%d:%s' % (zlib.crc32(repr(self.rng.getstate()[1][:16]).encode()), f))
             if r.random() < 0.35:
                 # a fresh variable of the enclosing scope whose ONLY mention anywhere is one syntactic position
                 # inside this nested function: capture analysis has to visit that position or the variable is
                 # never boxed (map key/value, list/tuple element, index, interpolation, ternary arm/condition,
                 # and/or operand, unary operand, call argument, a lambda nested once more)
                 w = self.name('w')
-                wv = self.uniq()
-                u = self.uniq()
+                self.u += r.choice([1, 3, 7, 11])
+                wv = self.u
+                self.u += r.choice([1, 3, 7, 11])
+                u = self.u
                 pre = [Let(w, Num(wv))]
                 pos = r.choice(['mapkey', 'mapval', 'list', 'tuple', 'index', 'interp', 'tern_arm', 'tern_cond', 'or',
                                 'and', 'neg', 'arg', 'nested', 'mapkey', 'mapval'])
